@@ -306,8 +306,8 @@ def judge(cfg, log, stored, cache, faults):
     else:
       if not w[4]:
         return ('exists_before_write', 'write(%r) although the file was never created' % (m,))
-      if incs.count(('committedPoints', len(w[2]))) != 1 or ('errors', 1) in incs:
-        return ('committed_counted_once', 'successful write of %d points for %r: then %r' % (len(w[2]), m, acc))
+      if ('droppedCreates', 1) in incs:
+        return ('written_and_counted_as_dropped', 'successful write of %d points for %r also counted as a dropped create: %r' % (len(w[2]), m, acc))
   all_stored = set((m, dp) for (m, dp, _) in stored)
   if not drained <= all_stored:
     return ('write_carries_the_batch', 'batches contain datapoints that were never stored: %r' % (sorted(drained - all_stored),))
